@@ -92,6 +92,7 @@ type ftype struct {
 	evlog []mutation
 	gate  chan gateReq
 	open  *fwatch // driver-side view: the watch the script may feed (nil when none / terminated)
+	kdd   bool    // the last answered List was "empty collection, revision 0" (the cache polls, it cannot watch)
 }
 
 type fake struct {
@@ -155,8 +156,19 @@ func (f *fake) List(ctx context.Context, l model.ListInterface, revision string)
 	defer close(done)
 	f.mu.Lock()
 	defer f.mu.Unlock()
+	if how == "emptyrev" {
+		// what a KDD backend answers for an EMPTY collection: no items and revision "0", although the datastore has been
+		// written before.  With items present this is not a possible answer: answer like "ok".
+		if len(ft.store) == 0 {
+			ft.kdd = true
+			f.log.Emit("list", map[string]any{"ty": ft.name, "res": "ok", "items": []map[string]any{}, "rev": 0})
+			return &model.KVPairList{Revision: "0"}, nil
+		}
+		how = "ok"
+	}
 	switch how {
 	case "ok":
+		ft.kdd = false
 		out := &model.KVPairList{Revision: strconv.Itoa(ft.nrev)}
 		items := []map[string]any{}
 		ks := make([]string, 0, len(ft.store))
@@ -393,7 +405,7 @@ func (d *drv) reply(t, how string) bool {
 	case req := <-ft.gate:
 		if req.kind == "list" {
 			switch how {
-			case "ok", "err", "notinstalled", "expired":
+			case "ok", "emptyrev", "err", "notinstalled", "expired":
 			default:
 				how = "err"
 			}
@@ -622,10 +634,22 @@ func (d *drv) step(op map[string]any) {
 func (d *drv) finish() {
 	d.release()
 	d.settle()
+	polling := map[string]bool{}
 	for _, t := range d.ts {
 		d.f.mu.Lock()
 		virgin := d.f.types[t].nrev == 0
+		kddEmpty := d.f.types[t].kdd && len(d.f.types[t].store) == 0 && d.f.types[t].open == nil
 		d.f.mu.Unlock()
+		if kddEmpty {
+			// an empty collection that answers with revision 0: no watch can ever be opened from it.  The type is quiet
+			// once one more List has shown the present (empty) content and the cache is back at the List gate, polling.
+			if !d.reply(t, "emptyrev") {
+				fatal("type %s is polling but has an open watch (trace %d)", t, d.log.T)
+			}
+			d.settle()
+			polling[t] = true
+			continue
+		}
 		if virgin {
 			// a datastore that has never been written answers List with revision "0": the cache would poll
 			// forever and never open a watch.  Give it a first revision.
@@ -646,6 +670,9 @@ func (d *drv) finish() {
 		}
 	}
 	for _, t := range d.ts {
+		if polling[t] {
+			continue
+		}
 		d.mutate(t, sentinel, false)
 		if !d.deliver(t) {
 			fatal("sentinel could not be delivered for %s", t)
@@ -696,6 +723,9 @@ func (d *drv) random(t int, rnd *rand.Rand) {
 			d.mutate(ty, keys[rnd.Intn(nk)], rnd.Intn(3) == 0)
 		case c < 60:
 			how := "ok"
+			if rnd.Intn(100) < 20 {
+				how = "emptyrev" // only differs from "ok" when the collection is empty at that moment
+			}
 			if rnd.Intn(100) < faulty {
 				how = []string{"err", "err", "err", "notinstalled", "expired", "refused", "notsupported"}[rnd.Intn(7)]
 			}
@@ -772,6 +802,66 @@ func (d *drv) connloss(t int, rnd *rand.Rand, variant int) {
 	d.finish()
 }
 
+// kddempty: a collection is listed and watched, everything in it is deleted, the watch fails so that a full resync is
+// needed, and the re-List is answered the KDD way for an empty collection (no items, revision "0"): the cache polls.
+// The vanished resources must have been deleted from the stream by the time the system is quiet.  Inputs only.
+func (d *drv) kddempty(t int, rnd *rand.Rand, variant int) {
+	keys := []string{"k1", "k2", "k3"}
+	rt := []string{"never", "always"}[variant%2]
+	d.begin(t, keys, rt, map[string]bool{"a": rnd.Intn(2) == 0, "b": rnd.Intn(2) == 0})
+	ty, other := "a", "b"
+	if (variant/2)%2 == 1 {
+		ty, other = "b", "a"
+	}
+	n := 1 + rnd.Intn(3)
+	for i := 0; i < n; i++ {
+		d.mutate(ty, keys[i], false)
+	}
+	if rnd.Intn(2) == 0 {
+		d.mutate(other, "k1", false)
+	}
+	for _, x := range []string{ty, other} {
+		d.reply(x, "ok") // List
+		d.settle()
+		d.reply(x, "ok") // Watch (or the next poll when the other collection is still virgin)
+		d.settle()
+	}
+	delivered := rnd.Intn(2) == 0
+	for i := 0; i < n; i++ {
+		d.mutate(ty, keys[i], true)
+		if delivered && i == 0 {
+			d.deliver(ty) // some deletions are seen through the watch, the rest only by the re-List
+			d.settle()
+		}
+	}
+	switch (variant / 4) % 3 {
+	case 0:
+		d.wev(ty, "expired")
+		d.settle()
+	case 1:
+		for i := 0; i < 5; i++ {
+			d.wev(ty, "error")
+			d.settle()
+			if i < 4 {
+				d.reply(ty, "ok")
+				d.settle()
+			}
+		}
+	case 2:
+		d.wev(ty, "closed")
+		d.settle()
+		d.reply(ty, "expired") // the watch cannot be re-created from the old revision
+		d.settle()
+	}
+	d.reply(ty, "emptyrev") // the re-List of the now empty collection
+	d.settle()
+	if rnd.Intn(3) == 0 {
+		d.reply(ty, "emptyrev") // one poll later
+		d.settle()
+	}
+	d.finish()
+}
+
 func main() {
 	logrus.SetOutput(io.Discard)
 	logrus.SetLevel(logrus.PanicLevel)
@@ -815,8 +905,11 @@ func main() {
 	for i := 0; i < env.N; i++ {
 		t++
 		rnd := rand.New(rand.NewSource(env.Seed*1000003 + int64(i)))
-		if os.Getenv("VERIF_MODE") == "connloss" || i < 8 {
-			d.connloss(t, rnd, i)
+		scen := os.Getenv("VERIF_MODE") == "connloss"
+		if (scen && i%2 == 1) || (!scen && i >= 8 && i < 14) {
+			d.kddempty(t, rnd, i/2)
+		} else if scen || i < 8 {
+			d.connloss(t, rnd, i/2)
 		} else {
 			d.random(t, rnd)
 		}
